@@ -2,7 +2,21 @@
 
 package btree
 
-import "github.com/sharedcode/sop"
+import (
+	"context"
+
+	"github.com/sharedcode/sop"
+)
 
 // VerifOccCurrentNodeID is the logical id of the node the cursor is on (C02/C05 harness: item -> page map).
 func VerifOccCurrentNodeID[TK Ordered, TV any](b *Btree[TK, TV]) sop.UUID { return b.currentItemRef.nodeID }
+
+// VerifOccCurrentNodeHasChildren: the cursor is on an item of an inner node (removing it moves the in-order
+// successor up into this node, i.e. the successor item changes page).
+func VerifOccCurrentNodeHasChildren[TK Ordered, TV any](ctx context.Context, b *Btree[TK, TV]) bool {
+	if b.currentItemRef.nodeID.IsNil() {
+		return false
+	}
+	n, err := b.getNode(ctx, b.currentItemRef.nodeID)
+	return err == nil && n != nil && n.hasChildren()
+}
